@@ -10,6 +10,7 @@ mod checks;
 mod classes;
 mod comp;
 mod corpus;
+mod dbscen;
 mod exec;
 mod fmtchecks;
 mod execchecks;
